@@ -414,3 +414,13 @@ class MultiRelationLink(IRelationLink[TCircuitOperation], Generic[TCircuitOperat
     def __repr__(self):
         return f"<RelationLinks>{[node.__class__.__name__ for node in self._reference_nodes]}[{self._relation_type.name}, {self._relation_to_group.name}]"
     # endregion
+
+
+def invalidate_start_time_cache() -> None:
+    """
+    Clears the memoized start times of all relation links.
+    Memoization is keyed on (link, own duration) while the result also depends on upstream operations and duration settings.
+    Therefore, call this whenever a circuit structure, a relation link or a duration setting changes.
+    """
+    RelationLink.get_start_time.cache_clear()
+    MultiRelationLink.get_start_time.cache_clear()
